@@ -18,6 +18,7 @@ CATALOGUE = {
     "swe": (False, 1, "width"), "sw": (False, 1, "width"), "gw": (False, 1, "width"), "goda": (False, 1, "stat"),
     "mss": (False, 1, "stat"), "mss_depth": (False, 1, "stat"), "oned": (False, 1, "stat"), "to_energy": (False, 1, "stat"),
     "celerity": (False, 1, "stat"), "wavelen": (False, 1, "stat"),
+    "mss_dptfield": (False, 1, "stat"), "uss_dptfield": (True, 1, "stat"),  # depth given as a field over the non-spectral dimensions
     "hmax": (False, 1, "timestat"),  # uses the mean step of the whole time axis: per-spectrum, but not independent of the time coordinate
     "dm": (True, 1, "dir"), "dspr": (True, 1, "width"), "momd1": (True, 1, "stat"), "fdspr": (True, 1, "widthf"), "crsd": (True, 1, "stat"),
     "uss": (True, 1, "stat"), "uss_x": (True, 1, "stat"), "uss_y_depth": (True, 1, "stat"),
@@ -94,6 +95,10 @@ def apply(spec, da, aux=None):
         return sp.momd(1)
     if op == "mss_depth":
         return sp.mss(depth=spec["depth"])
+    if op in ("mss_dptfield", "uss_dptfield"):
+        dpt = (aux or {}).get("dpt")
+        dpt = spec["depth"] if dpt is None else dpt
+        return sp.mss(depth=dpt) if op == "mss_dptfield" else sp.uss(depth=dpt)
     if op == "uss_y_depth":
         return sp.uss_y(depth=spec["depth"])
     if op == "stats_list":
